@@ -126,14 +126,17 @@ def sev? : Sexp → Option Idle.SEv
   | .list [.atom "tick", d] => (nat? d).map .tick
   | .list [.atom "data", ca, _] => (nat? ca).map .data
   | .list [.atom "req", ca] => (nat? ca).map .req
+  | .list [.atom "req10", ca] => (nat? ca).map .req10
+  | .list [.atom "cap", ca, k] => do some (.cap (← nat? ca) (← nat? k))
+  | .list [.atom "wind", t] => (nat? t).map .wind
   | .list [.atom "svc"] => some .svc
   | _ => none
 
 def idleSnap (order : List Nat) (s : Idle.Srv) : Sexp :=
   .list (order.map fun ca =>
     match s.conns.find? (fun kc => kc.1 == ca) with
-    | none => sym "pending"
-    | some kc => if kc.2.isOpen then sym "open" else sym "closed")
+    | none => .list [sym "pending", ofNat 0]
+    | some kc => if kc.2.isOpen then .list [sym "open", ofNat kc.2.txlen] else .list [sym "closed", ofNat 0])
 
 def idleSteps (order : List Nat) (s : Idle.Srv) : List Idle.SEv → List Sexp
   | [] => []
@@ -152,10 +155,10 @@ def handle : Sexp → Sexp
     match bool? tls, bool? recon, nat? tmo, ops.mapM cop? with
     | some tls, some recon, some tmo, some ops => .list (cliSteps (Cli.make tls recon tmo) ops)
     | _, _, _, _ => sym "bad-request"
-  | .list [.atom "idle", _, t, .list ops] =>
-    match nat? t, ops.mapM sev? with
-    | some t, some ops => .list (idleSteps [] { tymeout := t } ops)
-    | _, _ => sym "bad-request"
+  | .list [.atom "idle", _, t, resp, .list ops] =>
+    match nat? t, nat? resp, ops.mapM sev? with
+    | some t, some resp, some ops => .list (idleSteps [] { tymeout := t, resp := resp } ops)
+    | _, _, _ => sym "bad-request"
   | .list [.atom "site", .atom site, code] =>
     match (nat? code).bind (siteOutcome site) with
     | some o => .list [sym "outcome", outcomeS o]
